@@ -2117,7 +2117,8 @@ def vertOf (V : Type) [Add V] [Zero V] (C : ℕ) (leaves comp : List ℕ) : Exce
 theorem compile_general' (p : Prov.P) (cmp : Compiled V) (h : compile p = .ok cmp) (h2 : p.nConj ≠ 1) :
     ∃ vertical : List (Diagram V),
       (components p.nUnits (pairsOfP p)).mapM (vertOf V p.nCands (leafUnits p.nUnits (pairsOfP p))) = .ok vertical ∧
-      concatenate vertical = .ok cmp.add := by
+      concatenate vertical = .ok cmp.add ∧
+      p.data.mapM (fun r => cmp.add.getUpdateLocation (rowLits r)) = .ok cmp.locs := by
   unfold compile at h
   simp only [beq_iff_eq, h2, if_false] at h
   split at h
@@ -2145,7 +2146,7 @@ theorem compile_general' (p : Prov.P) (cmp : Compiled V) (h : compile p = .ok cm
         rw [hl] at h
         simp only [pure, Except.pure, Except.ok.injEq] at h
         subst h
-        exact ⟨vertical, rfl, ha⟩
+        exact ⟨vertical, rfl, ha, hl⟩
 
 theorem vertOf_units (leaves comp : List ℕ) (e : Diagram V) (h : vertOf V 2 leaves comp = .ok e) : e.units.Perm comp := by
   unfold vertOf at h
@@ -2226,7 +2227,7 @@ theorem compile_units_perm (p : Prov.P) (cmp : Compiled V) (h : compile p = .ok 
     simp only [Except.ok.injEq] at h
     subst h
     exact List.Perm.refl _
-  · obtain ⟨vertical, hv, hcat⟩ := compile_general' p cmp h h2
+  · obtain ⟨vertical, hv, hcat, _⟩ := compile_general' p cmp h h2
     rw [hC] at hv
     have hF := mapM_forall₂ _ _ _ hv
     have hwf : ∀ e ∈ vertical, e.WF := by
@@ -2721,5 +2722,606 @@ theorem locSpec_row (d : Diagram V) (hC : d.C = 2) (hw : d.WF) (hnd : d.units.No
         · rw [hall last (by simp)]
 
 end RowDet
+
+/-! ## 16. nodes reached in concatenations and stacks -/
+section NodeTrack
+variable {V : Type} [AddCommMonoid V]
+
+theorem nodeAfter_pad (diam : ℕ) (L : List (Level V)) (j : ℕ) (pre : List ℕ) (hw : wf 2 L j) (hC : ∀ a ∈ pre, a < 2) :
+    nodeAfter (L.map (padLevel 2 · diam)) j pre = nodeAfter L j pre := by
+  induction L generalizing j pre with
+  | nil => cases pre <;> rfl
+  | cons lv L ih =>
+    cases pre with
+    | nil => rfl
+    | cons a pre =>
+      simp only [List.map_cons, nodeAfter, nodeAt_padLevel_lt 2 lv diam j (nodeAt_lt_of_active hw.1)]
+      exact ih _ pre (hw.2 a (hC a (by simp))) (fun x hx => hC x (by simp [hx]))
+
+/-- a prefix that stays inside the first block does not see the redirection of its last level -/
+theorem nodeAfter_glue_left (f : Level V → Level V) (L M : List (Level V)) (j : ℕ) (pre : List ℕ)
+    (h : pre.length < L.length) : nodeAfter (L.modify (L.length - 1) f ++ M) j pre = nodeAfter L j pre := by
+  induction L generalizing j pre with
+  | nil => simp at h
+  | cons lv L' ih =>
+    cases pre with
+    | nil => simp [nodeAfter_nil]
+    | cons a pre =>
+      cases L' with
+      | nil => simp at h
+      | cons lv2 L'' =>
+        have : (lv :: lv2 :: L'').length - 1 = ((lv2 :: L'').length - 1) + 1 := by simp
+        rw [this, List.modify_succ_cons]
+        simp only [List.cons_append, nodeAfter]
+        exact ih _ pre (by simpa using h)
+
+/-- after a complete block the path is at the root of the next one -/
+theorem nodeAfter_glue (r : ℕ) (L : List (Level V)) (hne : L ≠ []) (M : List (Level V)) (j : ℕ) (as bs : List ℕ)
+    (hlen : as.length = L.length) (hC : ∀ a ∈ as, a < 2) (hw : wf 2 L j) :
+    nodeAfter (L.modify (L.length - 1) (redirect r) ++ M) j (as ++ bs) = nodeAfter M r bs := by
+  induction L generalizing j as with
+  | nil => exact absurd rfl hne
+  | cons lv L' ih =>
+    match as, hlen with
+    | a :: as', hlen =>
+      have ha : a < 2 := hC a (by simp)
+      cases L' with
+      | nil =>
+        have has : as' = [] := by simpa using hlen
+        subst has
+        simp only [List.length_cons, List.length_nil, Nat.zero_add, Nat.sub_self, List.modify_zero_cons,
+          List.cons_append, List.nil_append, nodeAfter, nodeAt_redirect r lv j hw.1]
+        have : (Node.mk (nodeAt lv j).active (List.replicate 2 r) (nodeAt lv j).adder).ch a = r := by
+          have : a = 0 ∨ a = 1 := by omega
+          rcases this with rfl | rfl <;> rfl
+        rw [this]
+      | cons lv2 L'' =>
+        have : (lv :: lv2 :: L'').length - 1 = ((lv2 :: L'').length - 1) + 1 := by simp
+        rw [this, List.modify_succ_cons]
+        simp only [List.cons_append, nodeAfter]
+        exact ih (by simp) _ as' (by simpa using hlen) (fun x hx => hC x (by simp [hx])) (hw.2 a ha)
+
+/-- node reached inside the block of element `e` of a concatenation -/
+theorem nodeAfter_go (diam : ℕ) (pre : List (Diagram V)) (e : Diagram V) (post : List (Diagram V))
+    (hok : ∀ x ∈ pre ++ e :: post, ConcOK x) (A B : List ℕ) (hA : A.length = (pre.flatMap (·.units)).length)
+    (hB : B.length < e.levels.length) (hCA : ∀ a ∈ A, a < 2) (hCB : ∀ a ∈ B, a < 2) :
+    nodeAfter (concatenate.go diam (pre ++ e :: post)) ((pre ++ e :: post).headD e).root (A ++ B) =
+      nodeAfter e.levels e.root B := by
+  induction pre generalizing A with
+  | nil =>
+    have hA0 : A = [] := List.length_eq_zero_iff.mp (by simpa using hA)
+    subst hA0
+    have he := hok e (by simp)
+    simp only [List.nil_append, List.headD_cons]
+    cases post with
+    | nil =>
+      rw [concatenate.go.eq_2]
+      exact nodeAfter_pad diam _ _ _ (he.2.1 ▸ he.1.reach) hCB
+    | cons e' rest =>
+      rw [go_cons_cons, nodeAfter_glue_left _ _ _ _ _ (by simpa using hB)]
+      exact nodeAfter_pad diam _ _ _ (he.2.1 ▸ he.1.reach) hCB
+  | cons x pre ih =>
+    have hx := hok x (by simp)
+    simp only [List.cons_append, List.headD_cons]
+    -- split `A` at the end of the block of `x`
+    have hAl : A.length = x.units.length + (pre.flatMap (·.units)).length := by simpa using hA
+    have hsplit : A = A.take x.units.length ++ A.drop x.units.length := (List.take_append_drop _ _).symm
+    rw [hsplit, List.append_assoc]
+    cases hpe : pre ++ e :: post with
+    | nil => simp at hpe
+    | cons y rest' =>
+      rw [go_cons_cons, nodeAfter_glue _ _ (hx.levels_ne diam) _ _ _ _ (by simp [hx.1.len]; omega)
+        (fun a ha => hCA a (List.mem_of_mem_take ha)) (wf_padLevels 2 diam _ _ (hx.2.1 ▸ hx.1.reach))]
+      have := ih (fun z hz => hok z (by simp [hz])) (A.drop x.units.length) (by simp [hAl])
+        (fun a ha => hCA a (List.mem_of_mem_drop ha))
+      rw [hpe] at this
+      simpa using this
+
+end NodeTrack
+
+section NodeTrack2
+variable {V : Type} [AddCommMonoid V]
+
+theorem nodeAfter_append_left (H B : List (Level V)) (j : ℕ) (bits : List ℕ) (h : bits.length ≤ H.length) :
+    nodeAfter (H ++ B) j bits = nodeAfter H j bits := by
+  induction H generalizing j bits with
+  | nil =>
+    have : bits = [] := List.length_eq_zero_iff.mp (by simpa using h)
+    subst this; simp [nodeAfter_nil]
+  | cons lv H ih =>
+    cases bits with
+    | nil => rfl
+    | cons b bits => simp only [List.cons_append, nodeAfter]; exact ih _ bits (by simpa using h)
+
+theorem nodeAfter_append (H B : List (Level V)) (j : ℕ) (bits rest : List ℕ) (h : bits.length = H.length) :
+    nodeAfter (H ++ B) j (bits ++ rest) = nodeAfter B (nodeAfter H j bits) rest := by
+  induction H generalizing j bits with
+  | nil =>
+    have : bits = [] := List.length_eq_zero_iff.mp (by simpa using h)
+    subst this; simp [nodeAfter_nil]
+  | cons lv H ih =>
+    cases bits with
+    | nil => simp at h
+    | cons b bits => simp only [List.cons_append, nodeAfter]; exact ih _ bits (by simpa using h)
+
+/-- in the header tree the node reached is the binary number read so far -/
+theorem nodeAfter_hdr (k width : ℕ) (last : ℕ → ℕ → ℕ) (hwid : 2 ^ k ≤ width)
+    (hlast : ∀ j c, j < 2 ^ (k - 1) → c < 2 → last j c = 2 * j + c)
+    (len i j : ℕ) (hil : i + len = k) (hj : j < 2 ^ i) (bits : List ℕ) (hb : ∀ b ∈ bits, b < 2) (hl : bits.length ≤ len) :
+    nodeAfter ((List.range' i len).map (hdrLevel (V := V) k width last)) j bits =
+      bits.foldl (fun acc b => 2 * acc + b) j := by
+  induction len generalizing i j bits with
+  | zero =>
+    have : bits = [] := List.length_eq_zero_iff.mp (by simpa using hl)
+    subst this; simp [nodeAfter_nil]
+  | succ len ih =>
+    cases bits with
+    | nil => simp [nodeAfter_nil]
+    | cons b bits =>
+      have hb0 : b < 2 := hb b (by simp)
+      have hjw : j < width := lt_of_lt_of_le (lt_of_lt_of_le hj (Nat.pow_le_pow_right (by omega) (by omega))) hwid
+      simp only [List.range'_succ, List.map_cons, nodeAfter, List.foldl_cons]
+      have hch : (nodeAt (hdrLevel (V := V) k width last i) j).ch b = 2 * j + b := by
+        rw [nodeAt_hdrLevel k width _ i j hj hjw]
+        have hite : (if i + 1 < k then 2 * j + b else last j b) = 2 * j + b := by
+          split
+          · rfl
+          · exact hlast j b (by have : i = k - 1 := by omega
+                                rw [← this]; exact hj) hb0
+        have : b = 0 ∨ b = 1 := by omega
+        rcases this with rfl | rfl
+        · simpa [Node.ch] using hite
+        · simpa [Node.ch] using hite
+      rw [hch]
+      exact ih (i + 1) (2 * j + b) (by omega) (by rw [pow_succ]; omega) bits (fun x hx => hb x (by simp [hx]))
+        (by simpa using hl)
+
+theorem offsetOf_replicate (M : ℕ) (x : Diagram V) (e : ℕ) (he : e ≤ M) :
+    offsetOf (List.replicate M x) e = e * x.diameter := by
+  unfold offsetOf
+  rw [List.take_replicate, Nat.min_eq_left he, List.map_replicate, List.sum_replicate]
+  simp
+
+end NodeTrack2
+
+section NodeTrack3
+variable {V : Type} [AddCommMonoid V]
+
+theorem stackOK_replicate_chain (M : ℕ) (lvs : List ℕ) :
+    StackOK (List.replicate M (chain lvs 2 : Diagram V)) lvs.length := by
+  refine ⟨fun e he => ?_, fun e he => ?_, fun e he => ?_, fun e he => ?_⟩ <;>
+    rw [(List.mem_replicate.mp he).2]
+  · exact chain_wf _ _
+  · exact chain_rect _ _
+  · rfl
+  · simp [chain]
+
+/-- in the body of a stack of chains the path stays in the copy it entered -/
+theorem nodeAfter_body_chain (M : ℕ) (lvs : List ℕ) (len t e : ℕ) (htl : t + len = lvs.length) (he : e < M)
+    (rest : List ℕ) (hb : ∀ b ∈ rest, b < 2) (hl : rest.length ≤ len) :
+    nodeAfter ((List.range' t len).map (bodyLevel (List.replicate M (chain lvs 2 : Diagram V)))) e rest = e := by
+  induction len generalizing t rest with
+  | zero =>
+    have : rest = [] := List.length_eq_zero_iff.mp (by simpa using hl)
+    subst this; simp [nodeAfter_nil]
+  | succ len ih =>
+    cases rest with
+    | nil => simp [nodeAfter_nil]
+    | cons b rest =>
+      have hb0 : b < 2 := hb b (by simp)
+      simp only [List.range'_succ, List.map_cons, nodeAfter]
+      have hel : e < (List.replicate M (chain lvs 2 : Diagram V)).length := by simpa using he
+      have hx : (List.replicate M (chain lvs 2 : Diagram V))[e] = chain lvs 2 := by simp
+      have hoff : offsetOf (List.replicate M (chain lvs 2 : Diagram V)) e = e := by
+        rw [offsetOf_replicate _ _ _ (by omega)]; simp [chain]
+      have hnode := nodeAt_bodyLevel (List.replicate M (chain lvs 2 : Diagram V)) lvs.length
+        (stackOK_replicate_chain M lvs) t (by omega) e hel 0 (by rw [hx]; simp [chain])
+      rw [hoff, Nat.add_zero] at hnode
+      rw [hnode, hx]
+      have hlv : (chain lvs 2 : Diagram V).levels.getD t [] = [liveZero 2] := by
+        simp only [chain]
+        rw [List.getD_eq_getElem _ _ (by simp; omega)]
+        simp
+      rw [hlv]
+      have hn0 : nodeAt [(liveZero 2 : Node V)] 0 = liveZero 2 := rfl
+      rw [hn0, shiftNode_ch _ _ _ (by simp [liveZero]; exact hb0), liveZero_ch, Nat.add_zero]
+      exact ih (t + 1) (by omega) rest (fun x hx => hb x (by simp [hx])) (by simpa using hl)
+
+/-- in a stack of copies of a chain the node reached is the number spelled by the factor bits read so far -/
+theorem nodeAfter_stack_chain (factors lvs : List ℕ) (S : Diagram V)
+    (h : stack factors (List.replicate (2 ^ factors.length) (chain lvs 2)) = .ok S)
+    (pre : List ℕ) (hb : ∀ b ∈ pre, b < 2) (hl : pre.length ≤ factors.length + lvs.length) :
+    nodeAfter S.levels S.root pre = bitsVal (pre.take factors.length) := by
+  have hpos : 2 ^ factors.length = (2 ^ factors.length - 1) + 1 := by
+    have : 0 < 2 ^ factors.length := Nat.pow_pos (by omega)
+    omega
+  have hrep : List.replicate (2 ^ factors.length) (chain lvs 2 : Diagram V) =
+      chain lvs 2 :: List.replicate (2 ^ factors.length - 1) (chain lvs 2) := by
+    conv_lhs => rw [hpos, List.replicate_succ]
+  rw [hrep, stack_eq] at h
+  split at h
+  · cases h
+  split at h
+  · cases h
+  split at h
+  · cases h
+  rename_i hk
+  simp only [Except.ok.injEq] at h
+  subst h
+  simp only
+  rw [← hrep]
+  have hdiam : ((List.replicate (2 ^ factors.length) (chain lvs 2 : Diagram V)).map (·.diameter)).sum = 2 ^ factors.length := by
+    simp [chain]
+  have hlast : ∀ j c, j < 2 ^ (factors.length - 1) → c < 2 →
+      (rootsOf (List.replicate (2 ^ factors.length) (chain lvs 2 : Diagram V))).getD (2 * j + c) 0 = 2 * j + c := by
+    intro j c hj hc
+    have hlt : 2 * j + c < 2 ^ factors.length := by
+      have : 2 ^ factors.length = 2 * 2 ^ (factors.length - 1) := by
+        rw [← pow_succ']; congr 1; omega
+      omega
+    rw [rootsOf_getD _ _ (by simpa using hlt), offsetOf_replicate _ _ _ (by omega)]
+    simp [chain]
+  have hlv : (chain lvs 2 : Diagram V).levels.length = lvs.length := by simp [chain]
+  rw [hlv, List.range_eq_range', List.range_eq_range']
+  by_cases hpk : pre.length ≤ factors.length
+  · rw [nodeAfter_append_left _ _ _ _ (by simpa using hpk),
+      nodeAfter_hdr _ _ _ (by rw [hdiam]) hlast factors.length 0 0 (by omega) (by simp) pre hb hpk,
+      List.take_of_length_le hpk]
+    rfl
+  · have hsplit : pre = pre.take factors.length ++ pre.drop factors.length := (List.take_append_drop _ _).symm
+    have htl : (pre.take factors.length).length = factors.length := by simp; omega
+    conv_lhs => rw [hsplit]
+    rw [nodeAfter_append _ _ _ _ _ (by simpa using htl),
+      nodeAfter_hdr _ _ _ (by rw [hdiam]) hlast factors.length 0 0 (by omega) (by simp) _
+        (fun b hb' => hb b (List.mem_of_mem_take hb')) (by rw [htl])]
+    have hbv : (pre.take factors.length).foldl (fun acc b => 2 * acc + b) 0 = bitsVal (pre.take factors.length) := rfl
+    rw [hbv]
+    have hlt := bitsVal_lt (pre.take factors.length) (fun b hb' => hb b (List.mem_of_mem_take hb'))
+    rw [htl] at hlt
+    exact nodeAfter_body_chain _ lvs lvs.length 0 _ (by omega) hlt _ (fun b hb' => hb b (List.mem_of_mem_drop hb'))
+      (by simp; omega)
+
+end NodeTrack3
+
+/-! ## 17. rows of a compiled provenance: one component, at most one leaf unit -/
+section Rows
+variable {V : Type} [AddCommMonoid V]
+
+theorem foldl_bits_inj (bits bits' : List ℕ) (hb : ∀ b ∈ bits, b < 2) (hb' : ∀ b ∈ bits', b < 2)
+    (hl : bits.length = bits'.length) (j j' : ℕ)
+    (h : bits.foldl (fun acc b => 2 * acc + b) j = bits'.foldl (fun acc b => 2 * acc + b) j') :
+    j = j' ∧ bits = bits' := by
+  induction bits generalizing bits' j j' with
+  | nil =>
+    have : bits' = [] := List.length_eq_zero_iff.mp (by simpa using hl.symm)
+    subst this; exact ⟨by simpa using h, rfl⟩
+  | cons b t ih =>
+    cases bits' with
+    | nil => simp at hl
+    | cons b' t' =>
+      simp only [List.foldl_cons] at h
+      obtain ⟨h1, h2⟩ := ih t' (fun x hx => hb x (by simp [hx])) (fun x hx => hb' x (by simp [hx]))
+        (by simpa using hl) _ _ h
+      have hb0 := hb b (by simp)
+      have hb0' := hb' b' (by simp)
+      have : j = j' ∧ b = b' := by omega
+      exact ⟨this.1, by rw [this.2, h2]⟩
+
+theorem bitsVal_inj (bits bits' : List ℕ) (hb : ∀ b ∈ bits, b < 2) (hb' : ∀ b ∈ bits', b < 2)
+    (hl : bits.length = bits'.length) (h : bitsVal bits = bitsVal bits') : bits = bits' :=
+  (foldl_bits_inj bits bits' hb hb' hl 0 0 h).2
+
+theorem nodeAfter_chain (units : List ℕ) (C : ℕ) (pre : List ℕ) :
+    nodeAfter (chain units C : Diagram V).levels (chain units C : Diagram V).root pre = 0 := by
+  simp only [chain]
+  induction units generalizing pre with
+  | nil => cases pre <;> rfl
+  | cons u us ih =>
+    cases pre with
+    | nil => rfl
+    | cons a pre =>
+      simp only [List.map_cons, nodeAfter]
+      have : (nodeAt [(liveZero C : Node V)] 0).ch a = 0 := liveZero_ch C a
+      rw [this]; exact ih pre
+
+/-- the greedy leaf set is independent -/
+theorem leafUnits_indep (n : ℕ) (pairs : List (ℕ × ℕ)) :
+    ∀ x ∈ leafUnits n pairs, ∀ y ∈ leafUnits n pairs, x ≠ y → y ∉ neighborsOf pairs x := by
+  unfold leafUnits
+  simp only
+  generalize (List.range n).mergeSort _ = order
+  have key : ∀ (order : List ℕ) (st : List ℕ × List ℕ),
+      (∀ x ∈ st.1, ∀ y ∈ st.2, y ∉ neighborsOf pairs x) →
+      (∀ x ∈ st.1, ∀ y ∈ st.1, x ≠ y → y ∉ neighborsOf pairs x) →
+      ∀ x ∈ (order.foldl (fun (st : List ℕ × List ℕ) u =>
+          if st.2.contains u then (st.1 ++ [u], st.2.filter (fun x => !(neighborsOf pairs u).contains x)) else st) st).1,
+        ∀ y ∈ (order.foldl (fun (st : List ℕ × List ℕ) u =>
+          if st.2.contains u then (st.1 ++ [u], st.2.filter (fun x => !(neighborsOf pairs u).contains x)) else st) st).1,
+        x ≠ y → y ∉ neighborsOf pairs x := by
+    intro order
+    induction order with
+    | nil => intro st _ h2; simpa using h2
+    | cons u order ih =>
+      intro st h1 h2
+      rw [List.foldl_cons]
+      apply ih
+      · split
+        · rename_i hu
+          have hu' : u ∈ st.2 := by simpa using hu
+          intro x hx y hy
+          simp only [List.mem_filter] at hy
+          rcases List.mem_append.mp hx with hx | hx
+          · exact h1 x hx y hy.1
+          · simp only [List.mem_singleton] at hx; subst hx
+            simpa using hy.2
+        · exact h1
+      · split
+        · rename_i hu
+          have hu' : u ∈ st.2 := by simpa using hu
+          intro x hx y hy hxy
+          rcases List.mem_append.mp hx with hx1 | hx1
+          · rcases List.mem_append.mp hy with hy1 | hy1
+            · exact h2 x hx1 y hy1 hxy
+            · have hyu : y = u := by simpa using hy1
+              rw [hyu]
+              exact h1 x hx1 u hu'
+          · have hxu : x = u := by simpa using hx1
+            rcases List.mem_append.mp hy with hy1 | hy1
+            · intro hn
+              rw [hxu] at hn
+              exact h1 y hy1 u hu' (neighborsOf_symm _ _ _ hn)
+            · have hyu : y = u := by simpa using hy1
+              exact absurd (hxu.trans hyu.symm) hxy
+        · exact h2
+  exact key order ([], List.range n) (by simp) (by simp)
+
+theorem pairsOf_of_mem (us : List ℕ) (x y : ℕ) (hx : x ∈ us) (hy : y ∈ us) (hxy : x ≠ y) :
+    (x, y) ∈ pairsOf us ∨ (y, x) ∈ pairsOf us := by
+  induction us with
+  | nil => simp at hx
+  | cons u rest ih =>
+    simp only [pairsOf, List.mem_append, List.mem_map]
+    rcases List.mem_cons.mp hx with hxu | hx1
+    · rcases List.mem_cons.mp hy with hyu | hy1
+      · exact absurd (hxu.trans hyu.symm) hxy
+      · exact Or.inl (Or.inl ⟨y, hy1, by rw [hxu]⟩)
+    · rcases List.mem_cons.mp hy with hyu | hy1
+      · exact Or.inr (Or.inl ⟨x, hx1, by rw [hyu]⟩)
+      · rcases ih hx1 hy1 with h | h
+        · exact Or.inl (Or.inr h)
+        · exact Or.inr (Or.inr h)
+
+/-- two distinct units of a row are neighbours in the co-occurrence graph -/
+theorem row_adjacent (p : Prov.P) (r : Prov.Row) (hr : r ∈ p.data) (x y : ℕ) (hx : x ∈ rowUnits r) (hy : y ∈ rowUnits r)
+    (hxy : x ≠ y) : y ∈ neighborsOf (pairsOfP p) x := by
+  have h := pairsOf_of_mem (dedupSorted (rowUnits r)) x y ((mem_dedupSorted _ _).mpr hx) ((mem_dedupSorted _ _).mpr hy) hxy
+  rw [mem_neighborsOf]
+  have hmem : ∀ q, q ∈ pairsOf (dedupSorted (rowUnits r)) → q ∈ pairsOfP p := by
+    intro q hq
+    unfold pairsOfP
+    rw [List.mem_eraseDups, List.mem_flatMap]
+    exact ⟨r, hr, hq⟩
+  rcases h with h | h
+  · exact ⟨(x, y), hmem _ h, Or.inl ⟨rfl, rfl⟩⟩
+  · exact ⟨(y, x), hmem _ h, Or.inr ⟨fun h' => hxy h'.symm, rfl, rfl⟩⟩
+
+theorem forall₂_split_left {α β : Type} {R : α → β → Prop} {l : List α} {ys : List β} (h : List.Forall₂ R l ys)
+    (x : α) (hx : x ∈ l) : ∃ l1 l2 ys1 y ys2, l = l1 ++ x :: l2 ∧ ys = ys1 ++ y :: ys2 ∧ R x y ∧
+      List.Forall₂ R l1 ys1 := by
+  induction h with
+  | nil => simp at hx
+  | @cons a b l' ys' hr ht ih =>
+    rcases List.mem_cons.mp hx with rfl | hx
+    · exact ⟨[], l', [], b, ys', rfl, rfl, hr, .nil⟩
+    · obtain ⟨l1, l2, ys1, y, ys2, h1, h2, h3, h4⟩ := ih hx
+      exact ⟨a :: l1, l2, b :: ys1, y, ys2, by rw [h1]; rfl, by rw [h2]; rfl, h3, .cons hr h4⟩
+
+/-- the diagram built for one component: units, depth and the node reached by a prefix -/
+theorem vertOf_spec (leaves comp : List ℕ) (e : Diagram V) (h : vertOf V 2 leaves comp = .ok e) :
+    e.units = comp.filter (fun u => !leaves.contains u) ++ comp.filter (fun u => leaves.contains u) ∧
+    ∀ pre, (∀ b ∈ pre, b < 2) → pre.length ≤ e.units.length →
+      nodeAfter e.levels e.root pre = bitsVal (pre.take (comp.filter (fun u => !leaves.contains u)).length) := by
+  have h0 := h
+  unfold vertOf at h
+  split at h
+  · rename_i hemp
+    simp only [pure, Except.pure, Except.ok.injEq] at h
+    subst h
+    have hnil : comp.filter (fun u => !leaves.contains u) = [] := by simpa using hemp
+    rw [hnil]
+    refine ⟨by simp [chain], fun pre _ _ => ?_⟩
+    rw [nodeAfter_chain]; rfl
+  · have hu : e.units = comp.filter (fun u => !leaves.contains u) ++ comp.filter (fun u => leaves.contains u) := by
+      have hpos : 2 ^ (comp.filter (fun u => !leaves.contains u)).length =
+          (2 ^ (comp.filter (fun u => !leaves.contains u)).length - 1) + 1 := by
+        have : 0 < 2 ^ (comp.filter (fun u => !leaves.contains u)).length := Nat.pow_pos (by omega)
+        omega
+      have h' := h
+      rw [hpos, List.replicate_succ, stack_eq] at h'
+      split at h'
+      · cases h'
+      split at h'
+      · cases h'
+      split at h'
+      · cases h'
+      simp only [Except.ok.injEq] at h'
+      subst h'
+      simp [chain]
+    refine ⟨hu, fun pre hb hl => ?_⟩
+    exact nodeAfter_stack_chain _ _ e h pre hb (by rw [hu] at hl; simpa using hl)
+
+end Rows
+
+/-! ## 18. `LocSpec` for the general `compile` -/
+section CompileLocSpec
+variable {V : Type} [AddCommMonoid V]
+
+theorem concat_levels (els : List (Diagram V)) (d : Diagram V) (h : concatenate els = .ok d) (e : Diagram V) :
+    ∃ diam, d.levels = concatenate.go diam els ∧ d.root = (els.headD e).root := by
+  cases els with
+  | nil => cases h
+  | cons e0 rest =>
+    rw [concatenate_eq] at h
+    split at h
+    · cases h
+    split at h
+    · cases h
+    split at h
+    · cases h
+    simp only [Except.ok.injEq] at h
+    subst h
+    exact ⟨_, rfl, rfl⟩
+
+theorem idxOf_inj_of_mem {l : List ℕ} {x y : ℕ} (hx : x ∈ l) (hy : y ∈ l) (h : l.idxOf x = l.idxOf y) : x = y := by
+  have h1 : l.idxOf x < l.length := List.idxOf_lt_length_iff.mpr hx
+  have h2 : l.idxOf y < l.length := List.idxOf_lt_length_iff.mpr hy
+  rw [← List.getElem_idxOf h1, ← List.getElem_idxOf h2]
+  simp only [h]
+
+theorem compile_rowDet (p : Prov.P) (cmp : Compiled V) (h : compile p = .ok cmp) (hc : Conjunctive p) (hC : p.nCands = 2)
+    (h2 : p.nConj ≠ 1) (r : Prov.Row) (hr : r ∈ p.data) : RowDet cmp.add (rowUnits r) := by
+  obtain ⟨vertical, hv, hcat, _⟩ := compile_general' p cmp h h2
+  rw [hC] at hv
+  have hF := mapM_forall₂ _ _ _ hv
+  have hwf : ∀ e ∈ vertical, e.WF := by
+    intro e he
+    obtain ⟨comp, _, hce⟩ := forall₂_exists_left hF e he
+    exact (vertOf_reach _ _ _ hce).inv.1
+  obtain ⟨dWF, dUnits, dC, dOK, _⟩ := concat_spec vertical cmp.add hcat hwf
+  have hperm := compile_units_perm p cmp h hc hC
+  have hnd : cmp.add.units.Nodup := hperm.nodup_iff.mpr List.nodup_range
+  have hlen : cmp.add.units.length = p.nUnits := by simpa using hperm.length_eq
+  intro ulast hul hmax a ha b hb hnode u hu hne
+  have hadj : u ∈ neighborsOf (pairsOfP p) ulast := row_adjacent p r hr ulast u hul hu (Ne.symm hne)
+  have hulast_lt : ulast < p.nUnits := (hc.rowLits r hr).2 _ hul
+  obtain ⟨_, _, i3, i4⟩ := components_inv (pairsOfP p) p.nUnits (pairs_lt hc) p.nUnits (Nat.le_refl _)
+  rw [← components_eq] at i3 i4
+  obtain ⟨comp, hcomp, hucomp⟩ := List.mem_flatten.mp (i3 ulast hulast_lt)
+  have hu_comp : u ∈ comp := i4 comp hcomp ulast hucomp u hadj
+  obtain ⟨cpre, cpost, vpre, e, vpost, hcs, hvs, hve, _⟩ := forall₂_split_left hF comp hcomp
+  obtain ⟨heu, henode⟩ := vertOf_spec _ comp e hve
+  generalize hleaves : leafUnits p.nUnits (pairsOfP p) = leaves at heu henode hve
+  obtain ⟨diam, hlev, hroot⟩ := concat_levels vertical cmp.add hcat e
+  have hok : ∀ x ∈ vpre ++ e :: vpost, ConcOK x := by
+    intro x hx; rw [← hvs] at hx; exact ⟨hwf x hx, dOK x hx⟩
+  have he_mem : e ∈ vertical := by rw [hvs]; simp
+  have heWF := hwf e he_mem
+  -- positions
+  have hdu : cmp.add.units = vpre.flatMap (·.units) ++ (e.units ++ vpost.flatMap (·.units)) := by
+    rw [dUnits, hvs, List.flatMap_append, List.flatMap_cons]
+  have hidx : ∀ w ∈ e.units, cmp.add.units.idxOf w = (vpre.flatMap (·.units)).length + e.units.idxOf w := by
+    intro w hw
+    have hnot : w ∉ vpre.flatMap (·.units) := by
+      intro hin
+      rw [hdu, List.nodup_append] at hnd
+      exact hnd.2.2 w hin w (List.mem_append.mpr (Or.inl hw)) rfl
+    rw [hdu, List.idxOf_append_of_notMem hnot, List.idxOf_append_of_mem hw]
+  have hmem_e : ∀ w ∈ comp, w ∈ e.units := by
+    intro w hw
+    rw [heu, List.mem_append, List.mem_filter, List.mem_filter]
+    by_cases hl : leaves.contains w = true
+    · exact Or.inr ⟨hw, hl⟩
+    · exact Or.inl ⟨hw, by simpa using hl⟩
+  have hul_e := hmem_e ulast hucomp
+  have hu_e := hmem_e u hu_comp
+  have hℓ : e.units.idxOf ulast < e.units.length := List.idxOf_lt_length_iff.mpr hul_e
+  have hℓu : e.units.idxOf u < e.units.idxOf ulast := by
+    have h1 := hmax u hu
+    rw [hidx u hu_e, hidx ulast hul_e] at h1
+    have h2 : e.units.idxOf u ≠ e.units.idxOf ulast := fun he => hne (idxOf_inj_of_mem hu_e hul_e he)
+    omega
+  -- `u` is not a leaf
+  have hu_nl : ¬ (leaves.contains u = true) := by
+    intro hul'
+    have hul'' : u ∈ leaves := by simpa using hul'
+    have hulast_nl : ulast ∉ leaves := by
+      intro hl
+      rw [← hleaves] at hl hul''
+      exact leafUnits_indep _ _ ulast hl u hul'' (Ne.symm hne) hadj
+    have h1 : ulast ∈ comp.filter (fun u => !leaves.contains u) := by
+      rw [List.mem_filter]; exact ⟨hucomp, by simpa using hulast_nl⟩
+    have h2 : u ∉ comp.filter (fun u => !leaves.contains u) := by
+      rw [List.mem_filter]; rintro ⟨_, hh⟩; rw [hul'] at hh; exact absurd hh (by decide)
+    have h3 : e.units.idxOf ulast < (comp.filter (fun u => !leaves.contains u)).length := by
+      rw [heu, List.idxOf_append_of_mem h1]; exact List.idxOf_lt_length_iff.mpr h1
+    have h4 : (comp.filter (fun u => !leaves.contains u)).length ≤ e.units.idxOf u := by
+      rw [heu, List.idxOf_append_of_notMem h2]; omega
+    omega
+  have hu_f : u ∈ comp.filter (fun u => !leaves.contains u) := by
+    rw [List.mem_filter]; exact ⟨hu_comp, by simpa using hu_nl⟩
+  have hℓuk : e.units.idxOf u < (comp.filter (fun u => !leaves.contains u)).length := by
+    rw [heu, List.idxOf_append_of_mem hu_f]; exact List.idxOf_lt_length_iff.mpr hu_f
+  -- the nodes
+  obtain ⟨hal, halt⟩ := (mem_allAssign _ _).mp ha
+  obtain ⟨hbl, hblt⟩ := (mem_allAssign _ _).mp hb
+  have hoffle : (vpre.flatMap (·.units)).length + e.units.length ≤ cmp.add.units.length := by
+    rw [hdu]; simp only [List.length_append]; omega
+  have key : ∀ x : List ℕ, x.length = cmp.add.units.length → (∀ y ∈ x, y < 2) →
+      nodeAfter cmp.add.levels cmp.add.root (x.take (cmp.add.units.idxOf ulast)) =
+        bitsVal (((x.drop (vpre.flatMap (·.units)).length).take (e.units.idxOf ulast)).take
+          (comp.filter (fun u => !leaves.contains u)).length) := by
+    intro x hxl hxlt
+    rw [hidx ulast hul_e, List.take_add, hlev, hroot, hvs,
+      nodeAfter_go diam vpre e vpost hok _ _ (by rw [List.length_take]; omega)
+        (by rw [heWF.len, List.length_take, List.length_drop]; omega)
+        (fun y hy => hxlt y (List.mem_of_mem_take hy))
+        (fun y hy => hxlt y (List.mem_of_mem_drop (List.mem_of_mem_take hy)))]
+    exact henode _ (fun y hy => hxlt y (List.mem_of_mem_drop (List.mem_of_mem_take hy)))
+      (by rw [List.length_take, List.length_drop]; omega)
+  rw [key a hal halt, key b hbl hblt] at hnode
+  have heq := bitsVal_inj _ _
+    (fun y hy => halt y (List.mem_of_mem_drop (List.mem_of_mem_take (List.mem_of_mem_take hy))))
+    (fun y hy => hblt y (List.mem_of_mem_drop (List.mem_of_mem_take (List.mem_of_mem_take hy))))
+    (by simp [hal, hbl]) hnode
+  have hget : ∀ x : List ℕ, x.getD (cmp.add.units.idxOf u) 0 =
+      ((((x.drop (vpre.flatMap (·.units)).length).take (e.units.idxOf ulast)).take
+          (comp.filter (fun u => !leaves.contains u)).length).getD (e.units.idxOf u) 0) := by
+    intro x
+    rw [hidx u hu_e, List.getD_eq_getElem?_getD, List.getD_eq_getElem?_getD, List.getElem?_take_of_lt hℓuk,
+      List.getElem?_take_of_lt hℓu, List.getElem?_drop]
+  rw [hget a, hget b, heq]
+
+end CompileLocSpec
+
+section CompileLocSpec2
+
+/-- C09d: the locations computed by `compile` satisfy `LocSpec` (when `nConj = 1` the rows must really have one
+unit each, `OneUnit`) -/
+theorem compile_locSpec {D : Dom} (p : Prov.P) (cmp : Compiled (AVal D)) (h : compile p = .ok cmp) (hc : Conjunctive p)
+    (hC : p.nCands = 2) (hshape : p.nConj = 1 → OneUnit p) : LocSpec p cmp := by
+  by_cases h2 : p.nConj = 1
+  · rw [compile_chain p (compile_nDisj p cmp h) h2] at h
+    simp only [Except.ok.injEq] at h
+    subst h
+    exact (chain_baseOK p hc (hshape h2) hC).loc
+  · obtain ⟨_, _, _, hlocs⟩ := compile_general' p cmp h h2
+    obtain ⟨hll, hget⟩ := mapM_ok _ _ _ hlocs
+    obtain ⟨hR, hC2, _, _⟩ := compile_reach p cmp h hC
+    have hperm := compile_units_perm p cmp h hc hC
+    have hnd : cmp.add.units.Nodup := hperm.nodup_iff.mpr List.nodup_range
+    have hrow : ∀ i (hi : i < p.data.length) (hi' : i < cmp.locs.length),
+        (cmp.locs[i]).Nodup ∧
+        (∀ e ∈ cmp.locs[i], e.1 < cmp.add.levels.length ∧ e.2.1 < (cmp.add.levels.getD e.1 []).length ∧ e.2.2 < cmp.add.C) ∧
+        ∀ args ∈ allAssign cmp.add.units.length,
+          ((pathEdges cmp.add.levels cmp.add.root args 0).filter (fun e => (cmp.locs[i]).contains e)).length =
+            if (rowLits p.data[i]).all (fun uv => args.getD (cmp.add.units.idxOf uv.1) 0 == uv.2) then 1 else 0 := by
+      intro i hi hi'
+      have hmem : p.data[i] ∈ p.data := List.getElem_mem hi
+      obtain ⟨hl1, hl2⟩ := hc.rowLits _ hmem
+      have hg := hget i hi hi'
+      rw [hl1] at hg ⊢
+      exact locSpec_row cmp.add hC2 hR.inv.1 hnd (rowUnits p.data[i])
+        (fun u hu => by rw [hperm.mem_iff]; simpa using hl2 u hu) (hc.2 _ hmem).2
+        (compile_rowDet p cmp h hc hC h2 _ hmem) _ hg
+    refine ⟨fun loc hloc => ?_, fun loc hloc => ?_, fun args hargs r hr => ?_⟩
+    · obtain ⟨i, hi, rfl⟩ := List.mem_iff_getElem.mp hloc
+      exact (hrow i (by omega) hi).1
+    · obtain ⟨i, hi, rfl⟩ := List.mem_iff_getElem.mp hloc
+      exact (hrow i (by omega) hi).2.1
+    · have := (hrow r hr (by omega)).2.2 args hargs
+      rw [List.getD_eq_getElem _ _ (by omega : r < cmp.locs.length), List.getD_eq_getElem _ _ hr]
+      exact this
+
+end CompileLocSpec2
 
 end Ds.Oracle
